@@ -190,54 +190,59 @@ impl MdkSqliteStorage {
     {
         let file_path = file_path.as_ref();
 
-        // Atomically create the database file first, BEFORE making key decisions.
-        // This prevents TOCTOU races where another process could create the file
-        // between our existence check and key generation.
         #[cfg(feature = "verif-hooks")]
         crate::verif_hooks::yield_point("new:start");
-        let creation_outcome = precreate_secure_database_file(file_path)?;
-        #[cfg(feature = "verif-hooks")]
-        crate::verif_hooks::yield_point("new:precreated");
+        // Creating the file and deciding on its key happen under the key-generation lock, so that
+        // another thread of this process that finds the file already there also finds its key in
+        // the keyring (and not the moment between the creation of the file and the storing of the key).
+        let config = keyring::with_key_generation_lock(|| {
+            // Atomically create the database file first, BEFORE making key decisions.
+            // This prevents TOCTOU races where another process could create the file
+            // between our existence check and key generation.
+            let creation_outcome = precreate_secure_database_file(file_path)?;
+            #[cfg(feature = "verif-hooks")]
+            crate::verif_hooks::yield_point("new:precreated");
 
-        let config = match creation_outcome {
-            FileCreationOutcome::Created | FileCreationOutcome::Skipped => {
-                // We created the file (or it's a special path like :memory:).
-                // Safe to generate a new key since we own this database.
-                keyring::get_or_create_db_key(service_id, db_key_id)?
-            }
-            FileCreationOutcome::AlreadyExisted => {
-                // File already existed - another thread/process may have created it.
-                // We must retrieve the existing key, not generate a new one.
-                //
-                // IMPORTANT: Check the keyring FIRST, before checking if the file is encrypted.
-                // This handles the race condition where another thread has created the file
-                // and stored the key in the keyring, but hasn't yet written the encrypted
-                // header to the database file. If we checked the file first, we'd see an
-                // empty file and incorrectly return UnencryptedDatabaseWithEncryption.
-                match keyring::get_db_key(service_id, db_key_id)? {
-                    Some(config) => {
-                        // Key exists in keyring - another thread/process is initializing
-                        // (or has initialized) this database with encryption. Use that key.
-                        config
-                    }
-                    None => {
-                        // No key in keyring. Check if the database file appears unencrypted.
-                        // This catches the case where someone tries to use new() on a
-                        // database that was created with new_unencrypted().
-                        if !encryption::is_database_encrypted(file_path)? {
-                            return Err(Error::UnencryptedDatabaseWithEncryption);
+            Ok(match creation_outcome {
+                FileCreationOutcome::Created | FileCreationOutcome::Skipped => {
+                    // We created the file (or it's a special path like :memory:).
+                    // Safe to generate a new key since we own this database.
+                    keyring::get_or_create_db_key_locked(service_id, db_key_id)?
+                }
+                FileCreationOutcome::AlreadyExisted => {
+                    // File already existed - another thread/process may have created it.
+                    // We must retrieve the existing key, not generate a new one.
+                    //
+                    // IMPORTANT: Check the keyring FIRST, before checking if the file is encrypted.
+                    // This handles the race condition where another thread has created the file
+                    // and stored the key in the keyring, but hasn't yet written the encrypted
+                    // header to the database file. If we checked the file first, we'd see an
+                    // empty file and incorrectly return UnencryptedDatabaseWithEncryption.
+                    match keyring::get_db_key(service_id, db_key_id)? {
+                        Some(config) => {
+                            // Key exists in keyring - another thread/process is initializing
+                            // (or has initialized) this database with encryption. Use that key.
+                            config
                         }
+                        None => {
+                            // No key in keyring. Check if the database file appears unencrypted.
+                            // This catches the case where someone tries to use new() on a
+                            // database that was created with new_unencrypted().
+                            if !encryption::is_database_encrypted(file_path)? {
+                                return Err(Error::UnencryptedDatabaseWithEncryption);
+                            }
 
-                        // Database appears encrypted but no key in keyring - unrecoverable.
-                        return Err(Error::KeyringEntryMissingForExistingDatabase {
-                            db_path: file_path.display().to_string(),
-                            service_id: service_id.to_string(),
-                            db_key_id: db_key_id.to_string(),
-                        });
+                            // Database appears encrypted but no key in keyring - unrecoverable.
+                            return Err(Error::KeyringEntryMissingForExistingDatabase {
+                                db_path: file_path.display().to_string(),
+                                service_id: service_id.to_string(),
+                                db_key_id: db_key_id.to_string(),
+                            });
+                        }
                     }
                 }
-            }
-        };
+            })
+        })?;
 
         #[cfg(feature = "verif-hooks")]
         crate::verif_hooks::yield_point("new:have-key");
